@@ -4,7 +4,7 @@
 //! for every capacity and both kinds, against a bounded VecDeque.
 //! family "io": BFS over INPUT.* / OUTPUT.* instruction histories (see refstep).
 
-use crate::core::{guarded, panic_class, step_once, with_instr, Ctx, Outcome, Real, Verdict};
+use crate::core::{guarded, live_history, panic_class, step_once, with_instr, Ctx, LiveStep, Outcome, Real, Verdict};
 use crate::model::{new_buffer, Msg, M};
 use crate::refmodel;
 use pushr::push::buffer::PushBuffer;
@@ -323,6 +323,39 @@ fn apply_env(m: &mut M, a: &Act) -> bool {
     }
 }
 
+/// the history as operations on one live state: environment actions act on the live queues and stacks,
+/// instruction actions are executed by the interpreter
+fn live_steps(acts: &[Act], hist: &[usize], last: &Act) -> Vec<LiveStep> {
+    let mut steps: Vec<LiveStep> = vec![];
+    let mut pending: Vec<Act> = vec![];
+    for a in hist.iter().map(|i| &acts[*i]).chain(std::iter::once(last)) {
+        match a {
+            Act::Ins(name) => {
+                let env: Vec<Act> = std::mem::take(&mut pending);
+                steps.push(LiveStep {
+                    pre: Box::new(move |st| {
+                        let msgs = messages();
+                        for e in &env {
+                            match e {
+                                Act::Enqueue(k) => st.input_stack.push(pushr::push::io::PushMessage::new(pushr::push::vector::IntVector::new(msgs[*k].header.clone()), pushr::push::vector::BoolVector::new(msgs[*k].body.clone()))),
+                                Act::PushInt(v) => st.int_stack.push(*v),
+                                Act::PushVecs(k) => {
+                                    st.bool_vector_stack.push(pushr::push::vector::BoolVector::new(msgs[*k].body.clone()));
+                                    st.int_vector_stack.push(pushr::push::vector::IntVector::new(msgs[*k].header.clone()));
+                                }
+                                Act::Ins(_) => {}
+                            }
+                        }
+                    }),
+                    push: Some(crate::model::Tree::ins(name)),
+                });
+            }
+            other => pending.push(other.clone()),
+        }
+    }
+    steps
+}
+
 fn bfs_io(ctx: &mut Ctx, depth_max: usize) {
     let mut real = Real::new();
     let acts = io_actions();
@@ -345,11 +378,20 @@ fn bfs_io(ctx: &mut Ctx, depth_max: usize) {
                     ctx.transitions += 1;
                     let before = with_instr(&m, name);
                     let out = step_once(&mut real, &before);
-                    let verdict = refmodel::judge(name, &m, &out);
+                    let mut verdict = refmodel::judge(name, &m, &out);
                     let okey = out.key();
                     if let Outcome::Ok(after) = &out {
                         if after.key() != m.key() {
                             ctx.nontrivial_mark(&format!("{}|{}", name, okey));
+                        }
+                        // the same history on ONE live state (the queues are never rebuilt): same end state
+                        if matches!(verdict, Verdict::Pass) {
+                            let live = live_history(&mut real, &M::default(), &live_steps(&acts, &hist, a));
+                            match live {
+                                Outcome::Ok(l) if l.key() == after.key() => {}
+                                Outcome::Ok(l) => verdict = Verdict::fail(name, "live-history-differs", format!("executed on one live state the history ends in {{{}}}, step by step from rebuilt states in {{{}}}", l.key(), after.key())),
+                                Outcome::Panic(p) => verdict = Verdict::fail(name, &panic_class(&p), format!("live history: {}", p)),
+                            }
                         }
                     }
                     let names: Vec<String> = hist.iter().map(|i| format!("{:?}", acts[*i])).collect();
@@ -400,6 +442,145 @@ fn fill(ctx: &mut Ctx) {
     run_script(ctx, &mut real, m, &["OUTPUT.WRITE", "OUTPUT.WRITE", "OUTPUT.STACKDEPTH", "OUTPUT.WRITE", "OUTPUT.WRITE", "OUTPUT.STACKDEPTH", "OUTPUT.FLUSH", "OUTPUT.STACKDEPTH"], "fill-output");
 }
 
+/// long straight histories on ONE live state (the queues are the same objects throughout): the host enqueues
+/// and consumes messages between instructions, the queues are filled, drained through a whole number of
+/// laps of their ring, flushed and refilled; after every instruction the live state equals the state the
+/// reference arrives at.
+fn live_scripts(ctx: &mut Ctx) {
+    #[derive(Clone)]
+    enum Ev {
+        Enq(usize),       // host: input_stack.push(message k)
+        HostPopOut,       // host: output_stack.pop()
+        Ints(Vec<i32>),   // program literal pushes
+        Vecs(usize),      // program literal pushes: body and header of message k
+        Ins(&'static str),
+    }
+    let msgs = messages();
+    let mut scripts: Vec<(&str, Vec<Ev>)> = vec![];
+    // fill the INPUT queue, drain it by exactly one lap, enqueue again, read
+    let mut s: Vec<Ev> = (0..10).map(|k| Ev::Enq(k % 3)).collect();
+    s.extend((0..10).map(|_| Ev::Ins("INPUT.NEXT")));
+    s.push(Ev::Enq(1));
+    s.extend([Ev::Ins("INPUT.READ"), Ev::Ints(vec![0]), Ev::Ins("INPUT.GET"), Ev::Ints(vec![5]), Ev::Ins("INPUT.GET"), Ev::Ins("INPUT.AVAILABLE"), Ev::Ins("INPUT.STACKDEPTH"), Ev::Ins("INPUT.NEXT"), Ev::Ins("INPUT.READ")]);
+    scripts.push(("input: one full lap", s));
+    // 25 rounds of enqueue-two / consume-one / read (the ring wraps several times, the queue fills up)
+    let mut s: Vec<Ev> = vec![];
+    for k in 0..25 {
+        s.extend([Ev::Enq(k % 3), Ev::Enq((k + 1) % 3), Ev::Ins("INPUT.READ"), Ev::Ins("INPUT.NEXT"), Ev::Ins("INPUT.AVAILABLE")]);
+    }
+    s.extend((0..12).flat_map(|_| vec![Ev::Ins("INPUT.READ"), Ev::Ins("INPUT.NEXT")]));
+    scripts.push(("input: wrap and fill", s));
+    // INPUT.FLUSH after partial consumption, then new messages
+    let mut s: Vec<Ev> = vec![Ev::Enq(0), Ev::Enq(1), Ev::Enq(2), Ev::Ins("INPUT.NEXT"), Ev::Ins("INPUT.FLUSH"), Ev::Enq(2), Ev::Ins("INPUT.READ"), Ev::Ints(vec![0]), Ev::Ins("INPUT.GET"), Ev::Ins("INPUT.NEXT"), Ev::Enq(1), Ev::Ins("INPUT.READ")];
+    s.extend([Ev::Ins("INPUT.FLUSH"), Ev::Ins("INPUT.READ"), Ev::Ins("INPUT.AVAILABLE")]);
+    scripts.push(("input: flush after consumption", s));
+    // OUTPUT: write, host consumes, flush, write, host consumes; overflow
+    let mut s: Vec<Ev> = vec![];
+    for k in 0..3 {
+        s.extend([Ev::Vecs(k), Ev::Ins("OUTPUT.WRITE")]);
+    }
+    s.extend([Ev::HostPopOut, Ev::Ins("OUTPUT.STACKDEPTH"), Ev::Ins("OUTPUT.FLUSH"), Ev::Vecs(1), Ev::Ins("OUTPUT.WRITE"), Ev::Ins("OUTPUT.STACKDEPTH"), Ev::HostPopOut, Ev::Ins("OUTPUT.STACKDEPTH")]);
+    for k in 0..8 {
+        s.extend([Ev::Vecs(k % 3), Ev::Ins("OUTPUT.WRITE"), Ev::Ins("OUTPUT.STACKDEPTH")]);
+        if k % 3 == 2 {
+            s.push(Ev::HostPopOut);
+        }
+    }
+    scripts.push(("output: consume, flush, overflow", s));
+    let mut real = Real::new();
+    let registered = real.names();
+    for (label, script) in scripts {
+        // model chain
+        let mut m = M::default();
+        let mut pending: Vec<Ev> = vec![];
+        let mut steps: Vec<LiveStep> = vec![];
+        let mut k = 0usize;
+        for ev in script.iter() {
+            match ev {
+                Ev::Ins(name) => {
+                    if !registered.iter().any(|n| n == name) {
+                        pending.clear();
+                        continue;
+                    }
+                    k += 1;
+                    let (id, rec) = ctx.take_exec();
+                    ctx.transitions += 1;
+                    ctx.states += 1;
+                    // reference: environment events on the model, then the instruction's row
+                    let before = m.clone();
+                    let out = step_once(&mut real, &with_instr(&before, name));
+                    let mut verdict = refmodel::judge(name, &before, &out);
+                    let env: Vec<Ev> = std::mem::take(&mut pending);
+                    let ms = msgs.clone();
+                    steps.push(LiveStep {
+                        pre: Box::new(move |st| {
+                            for e in &env {
+                                match e {
+                                    Ev::Enq(j) => st.input_stack.push(pushr::push::io::PushMessage::new(pushr::push::vector::IntVector::new(ms[*j].header.clone()), pushr::push::vector::BoolVector::new(ms[*j].body.clone()))),
+                                    Ev::HostPopOut => {
+                                        let _ = st.output_stack.pop();
+                                    }
+                                    Ev::Ints(v) => {
+                                        for x in v.iter().rev() {
+                                            st.int_stack.push(*x);
+                                        }
+                                    }
+                                    Ev::Vecs(j) => {
+                                        st.bool_vector_stack.push(pushr::push::vector::BoolVector::new(ms[*j].body.clone()));
+                                        st.int_vector_stack.push(pushr::push::vector::IntVector::new(ms[*j].header.clone()));
+                                    }
+                                    Ev::Ins(_) => {}
+                                }
+                            }
+                        }),
+                        push: Some(crate::model::Tree::ins(name)),
+                    });
+                    let okey = out.key();
+                    if let (Verdict::Pass, Outcome::Ok(after)) = (&verdict, &out) {
+                        match live_history(&mut real, &M::default(), &steps) {
+                            Outcome::Ok(l) if l.key() == after.key() => {}
+                            Outcome::Ok(l) => verdict = Verdict::fail(name, "live-history-differs", format!("after {} instructions on one live state: {{{}}}; the reference arrives at {{{}}}", k, l.key(), after.key())),
+                            Outcome::Panic(p) => verdict = Verdict::fail(name, &panic_class(&p), format!("live history, instruction {}: {}", k, p)),
+                        }
+                    }
+                    ctx.nontrivial_mark(&format!("{}|{}|{}", label, k, okey));
+                    ctx.record_if(rec, id, &format!("{}|{}|{}", label, k, okey), verdict, || format!("{}: instruction {} ({})", label, k, name));
+                    match out {
+                        Outcome::Ok(after) => m = after,
+                        Outcome::Panic(_) => break,
+                    }
+                }
+                other => {
+                    // environment events act on the model at once
+                    match other {
+                        Ev::Enq(j) => {
+                            if m.input.len() < 10 {
+                                m.input.push(msgs[*j].clone());
+                            }
+                        }
+                        Ev::HostPopOut => {
+                            if !m.output.is_empty() {
+                                m.output.remove(0);
+                            }
+                        }
+                        Ev::Ints(v) => {
+                            for x in v.iter().rev() {
+                                m.i.insert(0, *x);
+                            }
+                        }
+                        Ev::Vecs(j) => {
+                            m.bv.insert(0, msgs[*j].body.clone());
+                            m.iv.insert(0, msgs[*j].header.clone());
+                        }
+                        Ev::Ins(_) => {}
+                    }
+                    pending.push(other.clone());
+                }
+            }
+        }
+    }
+}
+
 fn run_script(ctx: &mut Ctx, real: &mut Real, mut m: M, script: &[&str], label: &str) {
     for (k, name) in script.iter().enumerate() {
         let (id, rec) = ctx.take_exec();
@@ -430,6 +611,7 @@ pub fn run(ctx: &mut Ctx) {
             let d = if ctx.tier_thorough { 8 } else { 6 };
             bfs_io(ctx, d);
             fill(ctx);
+            live_scripts(ctx);
         }
         f => panic!("unknown family {}", f),
     }
